@@ -10,6 +10,8 @@ import SamVerif.Drive.C18
 import SamVerif.Drive.C17
 import SamVerif.Drive.C19
 import SamVerif.Drive.C14
+import SamVerif.Drive.C15
+import SamVerif.Drive.C06
 open SamVerif.Drive
 
 def dispatch (line : String) : String :=
@@ -22,6 +24,8 @@ def dispatch (line : String) : String :=
     else if k.startsWith "c17." then C17.handle k args impl
     else if k.startsWith "c19." then C19.handle k args impl
     else if k.startsWith "c14." then C14.handle k args impl
+    else if k.startsWith "c15." then C15.handle k args impl
+    else if k.startsWith "c06." then C06.handle k args impl
     else "bad-op"
   | _ => "bad-op"
 
